@@ -21,7 +21,7 @@ CONSTANTS MinEp,      \* first endpoint packet ID: 1 (the viewers) or 0 (hippoly
           Interval,   \* Circuit.resend_every in clock units
           Reorder,
           EpOn,       \* FALSE: the endpoints stay silent (only proxy packets and the clock: retry-budget configurations)
-          Disps,      \* dispositions an addon may choose: subset of {"fwd","drop","take","droptake","fwdtake"}
+          Disps,      \* dispositions an addon may choose: subset of {"fwd","drop","take","droptake","fwdtake","claim"}
           W           \* window of the per-direction injection trackers (0 = never evicts within the model)
 
 D == {"OUT", "IN"}
@@ -148,6 +148,11 @@ EndpointSend(d, k, rel, kind, A1, A2, disp) ==
                        ELSE <<Rec(d, w, kind, rel, resend, T1, T2)>>) \o copyOut
             /\ inj' = [inj EXCEPT ![d] = @ \cup injD]
             /\ UNCHANGED epDropped
+       ELSE IF disp = "claim"
+       \* an addon claims the packet by a truthy return alone: it is neither forwarded nor dropped, nothing leaves
+       \* the proxy and the sender is told nothing -- but the acknowledgements it carried have been seen (above)
+       THEN /\ out' = <<>>
+            /\ UNCHANGED <<base, fwdMap, delivered, shown, epDropped, inj>>
        ELSE LET new == base[r] + 1
                 ackSender == IF rel THEN <<Rec(r, new, "pa", FALSE, FALSE, <<>>, <<k>>)>> ELSE <<>>
                 \* the appended acks of the dropped packet travel on in a PacketAck of their own;
